@@ -8,7 +8,7 @@ import impl
 import sexp
 
 RULE = ("random placements of save/tag_state calls (named and leaf mode) inside nested functions, namespaces, scans (nested scans, "
-        "namespaces around and inside scans), jax.vmap / modular_vmap, with overwrites; each program run eagerly, under jit and under seed; "
+        "namespaces around and inside scans), jax.vmap / modular_vmap, nested jax.jit / jax.checkpoint helpers (transparent blocks), with overwrites; each program run eagerly, under jit and under seed; "
         "result vs the unwrapped function, collected dict vs an independent reference of the specification and vs the Lean model; "
         "non-trivial = contains a scan or vmap or a namespace; distinct by program text")
 
@@ -34,8 +34,11 @@ def gen_prog(rng, depth, ns_depth=0, in_ns=False):
                 out.append(("ns", rng.choice(NSS), gen_prog(rng, depth - 1, ns_depth + 1, True)))
         elif r < 0.82:
             out.append(("scan", gen_prog(rng, depth - 1, 0, False), rng.randint(1, 3), rng.random() < 0.3))
-        elif r < 0.95:
+        elif r < 0.92:
             out.append(("vmap", gen_prog(rng, depth - 1, ns_depth, in_ns), rng.randint(2, 3), rng.random() < 0.5))
+        elif r < 0.97:
+            # a nested jax.jit / jax.checkpoint helper: a transparent block (its statements count as the enclosing block's)
+            out.append(("call", gen_prog(rng, depth - 1, ns_depth, in_ns), rng.choice(["jit", "checkpoint"])))
         else:
             out.append(("other",))
     return out
@@ -55,13 +58,15 @@ def to_sexp(prog):
             out.append(["scan", to_sexp(s[1]), s[2]])
         elif k == "vmap":
             out.append(["vmap", to_sexp(s[1]), s[2]])
+        elif k == "call":
+            out += to_sexp(s[1])          # the Lean model has no call construct: a nested jit / checkpoint is transparent
         else:
             out.append("other")
     return out
 
 
 def has_kind(prog, kinds):
-    return any(s[0] in kinds or (s[0] in ("ns", "scan", "vmap") and has_kind(s[1] if s[0] != "ns" else s[2], kinds)) for s in prog)
+    return any(s[0] in kinds or (s[0] in ("ns", "scan", "vmap", "call") and has_kind(s[1] if s[0] != "ns" else s[2], kinds)) for s in prog)
 
 
 def ns_around_scan(prog, inside=False):
@@ -70,7 +75,7 @@ def ns_around_scan(prog, inside=False):
             return True
         if s[0] == "ns" and ns_around_scan(s[2], True):
             return True
-        if s[0] == "vmap" and ns_around_scan(s[1], inside):
+        if s[0] in ("vmap", "call") and ns_around_scan(s[1], inside):
             return True
         if s[0] == "scan" and ns_around_scan(s[1], False):
             return True
@@ -110,6 +115,9 @@ def build(G, prog):
                 vm = G.modular_vmap if s[3] else jax.vmap
                 r = vm(lambda l, s=s: run(s[1], x, sidx, lidx + [l]))(jnp.arange(s[2], dtype=jnp.float32))
                 acc = acc + jnp.sum(r)
+            elif k == "call":
+                wrapper = jax.jit if s[2] == "jit" else jax.checkpoint
+                acc = acc + wrapper(lambda xx, s=s: run(s[1], xx, sidx, lidx))(x)
             else:
                 acc = acc * 1.0
         return acc
@@ -154,6 +162,8 @@ def ref_collect(prog):
                     set_(st, tuple(ns) + path, [it[path] for it in iters])
             elif k == "vmap":
                 run(s[1], st, ns, sidx, lanes + [s[2]])
+            elif k == "call":
+                run(s[1], st, ns, sidx, lanes)
     run(prog, store, [], [], [])
     return store
 
@@ -225,7 +235,7 @@ def check_prog(G, ctx, prog, modes=("eager", "jit", "seed")):
             ctx.correspondence_break("State.collect vs state()", "model reproduces neither variant", c)
     ctx.case(sample=case if ctx.coverage["evaluations"] % 11 == 0 else None,
              nontrivial_key=json.dumps(prog) if has_kind(prog, ("scan", "vmap", "ns")) else None)
-    for kk in ("scan", "vmap", "ns", "leaf"):
+    for kk in ("scan", "vmap", "ns", "leaf", "call"):
         if has_kind(prog, (kk,)):
             ctx.count("has:" + kk)
     if ns_around_scan(prog):
@@ -254,6 +264,43 @@ def wrapper_reuse(G, ctx):
     ctx.case(sample=case, nontrivial_key="wrapper-reuse")
 
 
+def uninterpreted_calls(G, ctx):
+    """OPEN finding `state-dropped-in-uninterpreted-call`: a save inside a custom_jvp / custom_vjp function or a while_loop body is
+    bound as an identity by the interpreter's fall-through and silently dropped (nested jit / checkpoint were repaired).  Recognised
+    only in exactly that form: the result is unchanged and the dict lacks exactly the names saved inside the construct."""
+    import jax
+    import jax.numpy as jnp
+    from genjax.state import save, state
+
+    def inner(x):
+        return x + save(a=x * 2.0)["a"]
+
+    cj = jax.custom_jvp(inner)
+    cj.defjvp(lambda p, t: jax.jvp(inner, p, t))
+    cv = jax.custom_vjp(inner)
+    cv.defvjp(lambda x: jax.vjp(inner, x), lambda res, ct: res(ct))
+    progs = {"custom_jvp": lambda x: cj(x) + save(b=x)["b"],
+             "custom_vjp": lambda x: cv(x) + save(b=x)["b"],
+             "while_loop": lambda x: jax.lax.while_loop(lambda c: c < 2.0, inner, x) + save(b=x)["b"]}
+    for name, f in progs.items():
+        x = jnp.float32(0.5)
+        case = {"kind": "uninterpreted-call", "construct": name}
+        try:
+            res, col = state(f)(x)
+        except Exception as ex:
+            ctx.property_failure(None, f"state(f) with a save inside {name} raised {type(ex).__name__}: {str(ex)[:120]}", case)
+            continue
+        keys = sorted(col)
+        case["collected"] = keys
+        if abs(float(res) - float(f(x))) > 1e-5:
+            ctx.property_failure(None, f"state(f) changed the result with a save inside {name}", case)
+        if keys != ["a", "b"]:
+            ctx.property_failure("state-dropped-in-uninterpreted-call", f"a value saved inside {name} is missing from the collected dict (keys {keys}, saved a and b)",
+                                 case, matches_asis=keys == ["b"])
+        ctx.case(nontrivial_key=("uninterpreted-call", name))
+        ctx.count("uninterpreted-call")
+
+
 FIXED = [
     [("ns", "a", [("scan", [("tag", "x", 1)], 2)])],
     [("tag", "x", 1), ("scan", [("tag", "x", 2), ("tag", "y", 3)], 3, True), ("tag", "y", 4)],
@@ -266,6 +313,14 @@ FIXED = [
     [("ns", "a", [("ns", "b", [("tag", "x", 1)])]), ("scan", [("ns", "a", [("ns", "b", [("tag", "y", 2)])])], 2)],
     [("scan", [("ns", "d", [("ns", "c", [("tag", "x", 1)])])], 2), ("scan", [("ns", "d", [("ns", "c", [("tag", "y", 2)])])], 3)],
     [("ns", "a", [("ns", "b", [("ns", "c", [("tag", "z", 3)])])]), ("scan", [("ns", "a", [("ns", "b", [("ns", "c", [("tag", "x", 4)]), ("tag", "y", 5)])])], 2)],
+    # saves inside nested jax.jit / jax.checkpoint helpers (a repaired defect: they were silently dropped), at top level, in a
+    # namespace, in a scan body, under a map, nested in each other
+    [("call", [("tag", "x", 1)], "jit")],
+    [("call", [("tag", "x", 1), ("ns", "a", [("tag", "y", 2)])], "checkpoint"), ("tag", "z", 3)],
+    [("ns", "a", [("call", [("tag", "x", 1)], "jit")]), ("scan", [("call", [("tag", "y", 2)], "jit")], 2)],
+    [("vmap", [("call", [("tag", "x", 1)], "jit")], 2, True), ("vmap", [("call", [("tag", "y", 2)], "checkpoint")], 3, False)],
+    [("call", [("call", [("tag", "x", 1)], "checkpoint"), ("scan", [("tag", "y", 2)], 2)], "jit")],
+    [("tag", "x", 1), ("call", [("tag", "x", 2)], "jit")],
     # saves only in the INNER body of a nest of scans (nothing saved directly in the outer body), plain and namespaced
     [("scan", [("scan", [("tag", "x", 1)], 2)], 2)],
     [("ns", "a", [("scan", [("scan", [("ns", "b", [("tag", "x", 1)])], 3)], 2)])],
@@ -279,6 +334,7 @@ def shard(ctx, shard_i, n):
     rng = random.Random(ctx.seed * 131 + shard_i)
     if shard_i == 0:
         wrapper_reuse(G, ctx)
+        uninterpreted_calls(G, ctx)
         for p in FIXED:
             check_prog(G, ctx, p)
     for _ in range(n):
